@@ -213,10 +213,53 @@ def r12_2(ctx, counts: dict[str, int]) -> RuleResult:
     return res
 
 
+def r12_4(ctx, counts: dict[str, int]) -> RuleResult:
+    model: Model = ctx.model
+    res = RuleResult(
+        'R12.4', 'TRANSLATE-ARGUMENT-SIBLINGS',
+        'The XPath regex functions (dynamic-phase callers of translate_pattern) are siblings: '
+        'each passes the pattern, the flags and the XSD version of its parser '
+        '(self.parser.xsd_version), so that matches, replace, tokenize and analyze-string accept '
+        'the same regular expressions under the same parser. A caller that omits an argument '
+        'its siblings pass is the violation (the required argument list is the longest one used).')
+    calls = []
+    for f in model.all_functions():
+        if f.module.name.startswith('elementpath.regex') or f.cls is None and f.parent is None \
+                and not f.node.args.args:
+            continue
+        for n in walk_local(f.node):
+            if isinstance(n, ast.Call) and dotted(n.func).split('.')[-1] == 'translate_pattern' \
+                    and any(p == 'self' for p in f.params()):
+                calls.append((f, n))
+    if len(calls) < 3:
+        raise AnalysisError(f'only {len(calls)} run-time callers of translate_pattern located')
+
+    def shape(c: ast.Call) -> tuple:
+        named = {k.arg: stmt_text(k.value) for k in c.keywords if k.arg}
+        return (len(c.args) + len(named),
+                any('xsd_version' in stmt_text(a) for a in list(c.args) + [k.value for k in c.keywords]))
+    want = max(shape(c) for _, c in calls)
+    for f, c in sorted(calls, key=lambda t: t[0].key):
+        sh = shape(c)
+        res.instances.append(f'{f.key}: {stmt_text(c)[:70]} -> {sh}')
+        if sh == want:
+            res.ok()
+        else:
+            res.fail(finding('R12.4', f, c, 'translate_pattern arguments',
+                             f'`{stmt_text(c)[:70]}` passes {sh[0]} argument(s)'
+                             f'{"" if sh[1] else " without the XSD version"} while its sibling regex '
+                             f'functions pass {want[0]} including self.parser.xsd_version: under an '
+                             f'XSD 1.1 parser this function rejects patterns its siblings accept'))
+    counts['translate_calls'] = len(calls)
+    return res
+
+
 def run(ctx) -> dict:
     counts: dict[str, int] = {}
     from .c13_unicode import r13_3
-    results = [r12_1(ctx, counts), r12_2(ctx, counts), r13_3(ctx, counts)]
+    from .c13_unicode import r13_4
+    results = [r12_1(ctx, counts), r12_2(ctx, counts), r13_3(ctx, counts), r12_4(ctx, counts),
+               r13_4(ctx, counts)]
     return {
         'results': results, 'counts': counts,
         'explanation':
